@@ -6,6 +6,7 @@ import DsdVerif.Spec.Iupac
 import DsdVerif.Model.Units
 import DsdVerif.Spec.Symbols
 import DsdVerif.Model.Complex
+import DsdVerif.Model.World
 
 namespace Dsd.Driver
 open Dsd
@@ -163,5 +164,147 @@ def step (line : String) : String :=
   | ["symbols.unresolved"] =>
     "refs " ++ " ".intercalate (Symbols.unresolved.map (fun r => r.1 ++ ":" ++ r.2.1 ++ ":" ++ r.2.2))
   | _ => "bad-op"
+
+
+/-! ### stateful part: histories of requests against the object world -/
+
+def optS (s : String) : Option String := if s == "-" then none else some s
+def optN (s : String) : Option Nat := if s == "-" then none else s.toNat?
+
+def parseHandle (s : String) : Option Nat := if s.startsWith "h" then (s.drop 1).toString.toNat? else none
+
+def parseSeq (s : String) : Option (List (Option Nat)) :=
+  if s == "NONE" then none else
+  some ((words s).map (fun t => if t == "+" then none else parseHandle t))
+
+def parseHandles (s : String) : Option (List Nat) :=
+  if s == "NONE" then none else some ((words s).filterMap parseHandle)
+
+def showOut : Out → String
+  | .ret id true => s!"ret h{id} new"
+  | .ret id false => s!"ret h{id} old"
+  | .singletonErr none => "err SingletonError existing=none"
+  | .singletonErr (some id) => s!"err SingletonError existing=h{id}"
+  | .objectInitErr => "err ObjectInitError"
+  | .ssErr => "err SecondaryStructureError"
+  | .notImplemented => "err NotImplementedError"
+  | .assertion => "err AssertionError"
+  | .fault k => "err Fault " ++ k
+
+def showKey (k : CKey) : String := showNames k.1 ++ "/" ++ String.ofList k.2
+def showLoc (l : Locus) : String := s!"{l.1}.{l.2}"
+
+def showAns : Ans → String
+  | .names l => "names " ++ showNames l
+  | .chars l => "chars " ++ String.ofList l
+  | .nat n => s!"nat {n}"
+  | .str s => "str " ++ s
+  | .stab t => "stab " ++ "|".intercalate (t.map showNames)
+  | .ptab t => "ptab " ++ showPt t
+  | .oloc l => "oloc " ++ showLocus l
+  | .locs l => "locs " ++ " ".intercalate (l.map showLoc)
+  | .bool b => if b then "bool True" else "bool False"
+  | .rots l => "rots " ++ " ; ".intercalate (l.map (fun r => showNames r.1 ++ " / " ++ String.ofList r.2))
+  | .key k => "key " ++ showKey k
+  | .err e => showErr e
+
+def parseLoc (s : String) : Option Locus :=
+  match s.splitOn "." with
+  | [a, b] => do let a ← a.toNat?; let b ← b.toNat?; some (a, b)
+  | _ => none
+
+def parseView (v : String) (arg : String) : Option View :=
+  match v with
+  | "sequence" => some .sequence | "structure" => some .structure | "kernel" => some .kernel
+  | "size" => some .size | "strand_table" => some .strandTable | "pair_table" => some .pairTable
+  | "strand_length" => arg.toNat?.map .strandLength
+  | "get_domain" => (parseLoc arg).map .getDomain
+  | "get_paired_loc" => (parseLoc arg).map .getPairedLoc
+  | "get_loop_index" => (parseLoc arg).map .getLoopIndex
+  | "exterior" => some .exterior | "enclosed" => some .enclosed | "is_connected" => some .isConnected
+  | "rotate" => some .rotate | "rotate_pt" => some .rotatePt | "turns" => some .turns
+  | "canon" => some .canon | "name" => some .name
+  | _ => none
+
+def cplxSuffix (w : World) (out : Out) : String :=
+  match out with
+  | .ret id _ =>
+    match w.cstate.lookup id with
+    | some o => " canon=" ++ showKey o.canon ++ s!" turns={o.turns}"
+    | none => ""
+  | _ => ""
+
+def parseDType (s : String) : Option (Option DType) :=
+  if s == "-" then some none else if s == "short" then some (some .short) else if s == "long" then some (some .long) else none
+
+def stepW (w : World) (line : String) : World × String :=
+  match line.splitOn "\t" with
+  | ["reset"] => ({}, "ok")
+  | ["cfg.dom", c, cutoff, sh, lo] =>
+    match c.toNat?, cutoff.toNat?, sh.toNat?, lo.toNat? with
+    | some c, some a, some b, some d =>
+      ({ w with cfg := w.cfg.set c { cutoff := a, shortLen := b, longLen := d } }, "ok")
+    | _, _, _, _ => (w, "bad-op")
+  | ["cfg.prefix", kind, c, p] =>
+    match c.toNat? with
+    | none => (w, "bad-op")
+    | some c =>
+      let upd {κ} (cs : List (ClassReg κ)) : List (ClassReg κ) :=
+        match cs[c]? with | some cr => cs.set c { cr with prefix_ := some p } | none => cs
+      match kind with
+      | "dom" => ({ w with doms := upd w.doms }, "ok")
+      | "cplx" => ({ w with cplxs := upd w.cplxs }, "ok")
+      | "strand" => ({ w with strands := upd w.strands }, "ok")
+      | _ => (w, "bad-op")
+  | ["mk.dom", c, name, len, pfx, dt] =>
+    match c.toNat?, parseDType dt with
+    | some c, some dt =>
+      let (w', out) := w.mkDom c { name := optS name, length := optN len, prefix_ := optS pfx, dtype := dt }
+      (w', showOut out)
+    | _, _ => (w, "bad-op")
+  | ["inv", h] =>
+    match parseHandle h with
+    | some id => let (w', out) := w.invert id; (w', showOut out)
+    | none => (w, "bad-op")
+  | ["mk.cplx", c, name, pfx, seq, sst] =>
+    match c.toNat? with
+    | some c =>
+      let (w', out, _) := w.mkCplx c (parseSeq seq) sst.toList (optS name) (optS pfx)
+      (w', showOut out ++ cplxSuffix w' out)
+    | none => (w, "bad-op")
+  | ["mk.strand", c, name, seq] =>
+    match c.toNat? with
+    | some c => let (w', out) := w.mkStrand c (parseSeq seq) (optS name); (w', showOut out)
+    | none => (w, "bad-op")
+  | ["mk.macro", c, name, ms] =>
+    match c.toNat? with
+    | some c => let (w', out) := w.mkMacro c (parseHandles ms) (optS name); (w', showOut out)
+    | none => (w, "bad-op")
+  | ["mk.rxn", c, name, rtype, rs, ps] =>
+    match c.toNat? with
+    | some c =>
+      let (w', out, lists) := w.mkRxn c (parseHandles rs) (parseHandles ps) (optS rtype) (optS name)
+      (w', showOut out ++ (match out, lists with
+        | .ret _ true, some l => " lists=" ++ " + ".intercalate l.1 ++ " -> " ++ " + ".intercalate l.2
+        | _, _ => ""))
+    | none => (w, "bad-op")
+  | ["drop", h] =>
+    match parseHandle h with
+    | some id => (w.drop id, "ok")
+    | none => (w, "bad-op")
+  | ["names"] => (w, "names " ++ "|".intercalate (w.allNames.map (fun l => ",".intercalate l)))
+  | ["live", hs] => (w, "live " ++ " ".intercalate ((words hs).map (fun h =>
+      match parseHandle h with | some id => if w.isLive id then "1" else "0" | none => "?")))
+  | ["set.turns", h, v] =>
+    match parseHandle h, v.toInt? with
+    | some id, some v =>
+      let (w', e) := w.setTurns id v
+      (w', match e with | none => "ok" | some e => showErr e)
+    | _, _ => (w, "bad-op")
+  | ["q", h, v, arg] =>
+    match parseHandle h, parseView v arg with
+    | some id, some v => let (w', a) := w.queryC id v; (w', showAns a)
+    | _, _ => (w, "bad-op")
+  | _ => (w, step line)
 
 end Dsd.Driver
